@@ -7,7 +7,8 @@ def mk_matrix(spec):
     """spec: {'shape':[r,c], 'coo':[[i,j,w],...], 'fmt': csr|csc|coo|lil|dense|csr_unsorted|csr_shuffled, 'dtype': bool|int|float}"""
     r, c = spec['shape']
     coo = spec.get('coo', [])
-    dt = {'bool': bool, 'int': int, 'float': float, 'uint8': np.uint8, 'int8': np.int8, 'float32': np.float32}[spec.get('dtype', 'int')]
+    dt = {'bool': bool, 'int': int, 'float': float, 'uint8': np.uint8, 'int8': np.int8, 'float32': np.float32,
+          'uint16': np.uint16, 'int16': np.int16, 'int32': np.int32, 'uint32': np.uint32}[spec.get('dtype', 'int')]
     rows = np.array([e[0] for e in coo], dtype=int)
     cols = np.array([e[1] for e in coo], dtype=int)
     vals = np.array([e[2] if len(e) > 2 else 1 for e in coo]).astype(dt)
